@@ -7,6 +7,12 @@ ids = [p["id"] for p in props]
 
 # id -> (technique, level text, level note, design ref)
 claimed = {
+ "C01": ("proptest over type x shape x axis x layout x values x boundary-constructed q x strategy x API x pivot scripts + bounded-exhaustive patterns x ALL pivot sequences; oracle = full sort + documented index, exact integer/dyadic acceptance",
+         "Every lane of every generated array is compared with the strategy applied to its fully sorted copy at floor/ceil((N-1)q), for q constructed on, one and two ulps around every index boundary and .5 fraction; results must be identical under different pivot scripts. Small patterns are complete over all pivot sequences. The Midpoint/Linear difference-overflow defect is an open known finding and routed by its exact signature.",
+         "Accepts either reading of '(N-1)q' (IEEE product as the code evaluates it, or exact rational) where they differ; Nearest tie at exactly .5 accepts either neighbour; N64 Midpoint/Linear tolerance 4 ulp of the larger neighbour.", "5/C01"),
+ "C04": ("bounded-exhaustive enumeration of missing-masks x 14 MaybeNan impls x strides x offsets + proptest; metadata-first aliasing oracle, multiset/determinism/idempotence",
+         "Complete over all masks up to length 12/16 for every MaybeNan impl and stride in {-3..3}\\{0}; the returned view's pointer/length/stride are checked to designate only distinct elements of the input view before anything is read.",
+         "Address arithmetic on the returned view's metadata is done by the harness; reading through NotNan is avoided (its Deref is UB on a missing value).", "5/C04"),
  "C02": ("bounded-exhaustive enumeration of weak-order patterns x requests x ALL pivot sequences (DFS through a pivot hook) + proptest with scripted pivots, oracle = full sort",
          "Complete over order patterns and pivot sequences up to the stated length (the routine can only compare and clone, so longer inputs differ only in pattern), random search with adversarial pivot scripts beyond it; every execution is compared with a full sort, the partition post-condition and the multiset.",
          "Trusts std sort, ndarray slicing and the pivot hook (which replaces the drawn pivot only when a script is installed).", "5/C02"),
